@@ -34,6 +34,28 @@ macro_rules! harnesses {
             $( (stringify!($name), $body as fn(&mut $crate::Nd)) ),*
         ];
     };
+    (ryu $( $name:ident : $unwind:literal => $body:path ),* $(,)?) => {
+        #[cfg(kani)]
+        pub mod k {
+        $(
+            #[kani::proof]
+            #[kani::unwind($unwind)]
+            #[kani::stub(core::fmt::write, $crate::stubs::fmt_write)]
+            #[kani::stub(alloc::fmt::format, $crate::stubs::fmt_format)]
+            #[kani::stub(tracing_core::metadata::LevelFilter::current, $crate::stubs::level_off)]
+            #[kani::stub(serde_json::error::parse_line_col, $crate::stubs::parse_line_col)]
+            #[kani::stub(ryu::Buffer::format_finite, $crate::stubs::ryu_format_finite)]
+            pub fn $name() {
+                let mut nd = $crate::Nd::new();
+                $body(&mut nd);
+            }
+        )*
+        }
+        #[cfg(not(kani))]
+        pub const LIST: &[(&str, fn(&mut $crate::Nd))] = &[
+            $( (stringify!($name), $body as fn(&mut $crate::Nd)) ),*
+        ];
+    };
     (nofmt $( $name:ident : $unwind:literal => $body:path ),* $(,)?) => {
         #[cfg(kani)]
         pub mod k {
@@ -58,6 +80,11 @@ pub mod sock;
 pub mod refjson;
 pub mod p01;
 pub mod p02;
+pub mod p03;
+pub mod tok;
+pub mod p04;
+pub mod p05;
+pub mod p12;
 pub mod p06;
 pub mod p13;
 pub mod p17;
